@@ -103,6 +103,7 @@ package swarm
 //@ callsite NewStream#0 requires arg0 != nil ==> (!arg0.stat.Limited || nth(network.GetAllowLimitedConn(ctx), 0))
 //@ ensures result1 == nil ==> called(NewStream, 0) && ret(NewStream, 0, 1) == nil
 //@ ensures called(dialPeer, 0) ==> !nth(network.GetNoDial(ctx), 0)
+//@ loop 0 invariant called(dialPeer, 0) ==> !nth(network.GetNoDial(ctx), 0)
 //@ noframe
 
 //@ func (s *Swarm) removeConn
